@@ -41,6 +41,11 @@ def curTaskStatus (ec : EvalCtx) : Option Status :=
 def fragEval : Expr → EvalCtx → Option Val
   | .lit v, _ => some v
   | .ctx x, ec => if x.startsWith "__" then none else Val.dlookup ec.vars x
+  | .ctxKey x k, ec =>
+    if x.startsWith "__" then none
+    else match Val.dlookup ec.vars x with
+      | some (.dict d) => Val.dlookup d k
+      | _ => none
   | .succeeded, ec => (curTaskStatus ec).map fun s => .bool (s == .succeeded)
   | .failed, ec => (curTaskStatus ec).map fun s => .bool (s == .failed)
   | .completed, ec => (curTaskStatus ec).map fun s => .bool s.isCompleted
